@@ -22,3 +22,21 @@ Lemma demo_hs_result :
               CRdmaRestart 0; CRdmaRestart 1] /\
   h_mmu_out s = [mkMRsp 50 [4096; 8192] true].
 Proof. vm_compute. repeat split; reflexivity. Qed.
+
+(** one request with two requesting GPUs (two pages and one page); the map
+    iteration visits GPU 3's group first; stopped when both GPU restarts are out *)
+Definition demo_q2 : mreq := mkMReq 51 [1; 2] [(2, [4096; 8192]); (3, [12288])] 1 7 4096 false [3; 2] [2; 3].
+Definition demo_hs2 : list hev :=
+  let T := HTick in
+  [HDeliverMMU demo_q2; T; T; T; T; HDeliverGPU RDrain; HDeliverGPU RDrain; HDeliverGPU RDrain; T; T; T; T; T;
+   HDeliverGPU RShoot; HDeliverGPU RShoot; T; T; T; HDeliverGPU RMig; T; T; HDeliverGPU RMig; T; T;
+   HDeliverGPU RMig; T; T; T].
+Lemma demo_hs2_valid : hvalid (hs_init 3) demo_hs2.
+Proof. vm_compute. repeat split; try discriminate; try lia; auto. Qed.
+Lemma demo_hs2_result :
+  let s := hrun (hs_init 3) demo_hs2 in
+  h_cur s = Some demo_q2 /\
+  g_sent s = [CDrain 0; CDrain 1; CDrain 2; CShoot 0 [4096; 8192; 12288] 7; CShoot 1 [4096; 8192; 12288] 7;
+              CMig 2 1 4096 12288; CMig 1 1 4096 4096; CMig 1 1 4096 8192; CRestart 0; CRestart 1] /\
+  h_mmu_out s = [mkMRsp 51 [4096; 8192; 12288] false].
+Proof. vm_compute. repeat split; reflexivity. Qed.
